@@ -33,6 +33,7 @@ fusion, was fixed in /repo by 7c3427a; the model mirrors the fixed code and `jum
 set_option linter.unusedTactic false
 set_option linter.unreachableTactic false
 set_option linter.unusedVariables false
+set_option linter.unnecessarySeqFocus false
 
 namespace ThermoVerif.Props.C07
 open ThermoVerif.FreeEnergy
@@ -652,6 +653,83 @@ theorem mixing_never_lowers_S_counterexample : ¬ mixing_never_lowers_S_statemen
   have := log_half_neg
   norm_num at h2
   linarith
+
+/-! ### `include_excess_energies`
+
+With the flag set `Mixture.H` adds `_H_excess(phase, mol, T, P)`, an `IdealTPMixtureModel` over the chemicals'
+excess-enthalpy handles; the per-chemical excess values `exᵢ` (equation of state) are arbitrary parameters.
+A composition record is `(nᵢ, hᵢ, exᵢ)` or `(nᵢ, mᵢ, hᵢ, exᵢ)`. -/
+
+/-- `H_mix_linear` under the flag: the mixture enthalpy is the mole-weighted sum of `hᵢ` (flag off) or of
+`hᵢ + exᵢ` (flag on). -/
+theorem Hx_mix_linear (incl : Bool) (l : List (ℝ × ℝ × ℝ)) :
+    mixtureHx (realEnv R) incl (l.map (·.1)) (l.map (·.2.1)) (l.map (·.2.2)) =
+      (l.map fun t => t.1 * (t.2.1 + if incl then t.2.2 else 0)).sum := by
+  cases incl <;> simp [mixtureHx, mix_eq_weighted_sum, mul_add, List.sum_map_add]
+
+/-- additive in the amounts, with or without the excess terms -/
+theorem Hx_mix_additive (incl : Bool) (l : List (ℝ × ℝ × ℝ × ℝ)) :
+    mixtureHx (realEnv R) incl (l.map fun t => t.1 + t.2.1) (l.map (·.2.2.1)) (l.map (·.2.2.2)) =
+      mixtureHx (realEnv R) incl (l.map (·.1)) (l.map (·.2.2.1)) (l.map (·.2.2.2)) +
+      mixtureHx (realEnv R) incl (l.map (·.2.1)) (l.map (·.2.2.1)) (l.map (·.2.2.2)) := by
+  cases incl <;> simp only [mixtureHx, mix_eq_weighted_sum, add_mul, List.sum_map_add, if_true, if_false,
+    Bool.false_eq_true] <;> ring
+
+/-- extensive, with or without the excess terms -/
+theorem Hx_mix_extensive (incl : Bool) (k : ℝ) (l : List (ℝ × ℝ × ℝ)) :
+    mixtureHx (realEnv R) incl (l.map fun t => k * t.1) (l.map (·.2.1)) (l.map (·.2.2)) =
+      k * mixtureHx (realEnv R) incl (l.map (·.1)) (l.map (·.2.1)) (l.map (·.2.2)) := by
+  cases incl <;> simp only [mixtureHx, mix_eq_weighted_sum, mul_assoc, List.sum_map_mul_left, if_true, if_false,
+    Bool.false_eq_true] <;> ring
+
+/-- with the flag off nothing changes: `Mixture.H` is the ideal model -/
+theorem Hx_flag_off (mol vals ex : List ℝ) : mixtureHx (realEnv R) false mol vals ex = idealMix (realEnv R) mol vals := by
+  simp [mixtureHx]
+
+/-- `Mixture.S` under the flag (what the code computes): the entropy model's value (with the mixing term as it is,
+§8 #20) plus, when the flag is set, the mole-weighted excess entropies; an empty stream has entropy 0 either way. -/
+theorem Sx_mix_partial (incl : Bool) (l : List (ℝ × ℝ × ℝ)) :
+    mixtureSx (realEnv R) incl (l.map (·.1)) (l.map (·.2.1)) (l.map (·.2.2)) =
+      mixtureS (realEnv R) (l.map (·.1)) (l.map (·.2.1)) +
+        (if incl then (l.map fun t => t.1 * t.2.2).sum else 0) := by
+  unfold mixtureSx mixtureS
+  split_ifs with hempty hincl
+  · -- empty: the excess sum is zero as well
+    have hz : ∀ t ∈ l, t.1 = 0 := by
+      intro t ht
+      by_contra hne
+      have : t.1 ∈ (l.map (·.1)).filter fun n => !(realEnv R).isZero n := by
+        simp only [List.mem_filter, List.mem_map]
+        exact ⟨⟨t, ht, rfl⟩, by simp [realEnv, hne]⟩
+      rw [List.isEmpty_iff.1 hempty] at this
+      exact List.not_mem_nil this
+    have h1 : (l.map fun t => t.1 * t.2.2).sum = 0 := by
+      apply List.sum_eq_zero; intro x hx
+      obtain ⟨t, ht, rfl⟩ := List.mem_map.1 hx
+      simp [hz t ht]
+    rw [h1]; norm_num
+  · norm_num
+  · rw [mix_eq_weighted_sum]
+  · norm_num
+
+/-! ### `force_gas_critical_phase` -/
+
+/-- With the class switch off (the default) the phase asked for is the phase evaluated, so every theorem above is
+about `chemical.H/S` as called; with it on, a call above the critical temperature evaluates the GAS functor whatever
+phase was asked for, and a call at or below `Tc` is unchanged. -/
+theorem force_gas_critical_phase_spec (w : Energies ℝ) (Tc T P : ℝ) (ph : Phase) :
+    w.Hforce (realEnv R) false Tc ph T P = w.H (realEnv R) ph T P ∧
+    w.Sforce (realEnv R) false Tc ph T P = w.S (realEnv R) ph T P ∧
+    (Tc < T → w.Hforce (realEnv R) true Tc ph T P = w.H (realEnv R) .g T P ∧
+              w.Sforce (realEnv R) true Tc ph T P = w.S (realEnv R) .g T P) ∧
+    (T ≤ Tc → w.Hforce (realEnv R) true Tc ph T P = w.H (realEnv R) ph T P ∧
+              w.Sforce (realEnv R) true Tc ph T P = w.S (realEnv R) ph T P) := by
+  refine ⟨by simp [Energies.Hforce, effPhase], by simp [Energies.Sforce, effPhase], ?_, ?_⟩
+  · intro h
+    have : ¬ T ≤ Tc := not_le.2 h
+    simp [Energies.Hforce, Energies.Sforce, effPhase, realEnv, this]
+  · intro h
+    simp [Energies.Hforce, Energies.Sforce, effPhase, realEnv, h]
 
 /-! ### The log-sum inequality: what mixing does to `Σ nᵢ ln xᵢ` -/
 
